@@ -131,6 +131,7 @@ type openSite struct {
 	notExists *bool
 	hook      bool // Options.OpenFile is the result of openfile.OpenFile
 	optsNil   bool
+	fields    map[string]string // every field of the bbolt.Options literal that is set, with its (constant) value
 }
 
 func boltOpenSites(c *Ctx) []openSite {
@@ -141,7 +142,7 @@ func boltOpenSites(c *Ctx) []openSite {
 			if !ok || calleeName(&call.Call) != "go.etcd.io/bbolt.Open" {
 				return
 			}
-			s := openSite{fn: fn, call: call}
+			s := openSite{fn: fn, call: call, fields: map[string]string{}}
 			opts := call.Call.Args[2]
 			if isNilConst(opts) {
 				s.optsNil = true
@@ -156,7 +157,21 @@ func boltOpenSites(c *Ctx) []openSite {
 						continue
 					}
 					f := fieldOf(fa.X.Type(), fa.Field)
-					if f == nil || f.Name() != "OpenFile" {
+					if f == nil {
+						continue
+					}
+					for _, rr := range referrers(fa) {
+						if st, ok := rr.(*ssa.Store); ok && st.Addr == ssa.Value(fa) {
+							if k, ok := st.Val.(*ssa.Const); ok && k.Value != nil {
+								s.fields[f.Name()] = k.Value.ExactString()
+							} else if k, ok := st.Val.(*ssa.Const); ok && k.Value == nil {
+								s.fields[f.Name()] = "zero"
+							} else {
+								s.fields[f.Name()] = "<non-constant>"
+							}
+						}
+					}
+					if f.Name() != "OpenFile" {
 						continue
 					}
 					for _, rr := range referrers(fa) {
@@ -278,6 +293,35 @@ func openSitesRule(c *Ctx, rule string) {
 		}
 	}
 	c.r.expect(rule, 4)
+	// sibling agreement on options that determine the on-disk format: a writer option the reader does not use makes
+	// bbolt rewrite parts of the file (freelist, meta page) on the first read-write open.
+	formatFields := []string{"NoFreelistSync", "FreelistType", "PageSize"}
+	type sv struct{ site, val string }
+	for _, ff := range formatFields {
+		var vals []sv
+		for _, s := range sites {
+			if roleOf(s) == "scratch" || roleOf(s) == "" {
+				continue
+			}
+			v := s.fields[ff]
+			if v == "" || v == "zero" || v == "false" || v == "0" || v == `""` {
+				v = "default"
+			}
+			vals = append(vals, sv{safeFname(s.fn) + " at " + c.w.ipos(s.call), v})
+		}
+		agree := true
+		for _, x := range vals {
+			if x.val != vals[0].val {
+				agree = false
+			}
+		}
+		desc := ""
+		for _, x := range vals {
+			desc += x.site + "=" + x.val + "; "
+		}
+		c.r.check(agree, "C16.openopts", "bbolt.Options."+ff, "writers and readers agree ("+desc+")",
+			"index writers and readers open the file with different values of bbolt.Options."+ff+" ("+desc+"): bbolt reconciles the difference by writing to the file when it is opened for reading")
+	}
 }
 
 func fromCreateTemp(v ssa.Value) bool {
